@@ -172,8 +172,8 @@ func genKeys(t *rapid.T, cfg Config, minKeys, maxKeys int) []KeySpec {
 }
 
 // extendKeys adds keys to a pool until it has n of them. The new digests share
-// the bucket bytes of the first key, are longer than every digest of the pool
-// and are checked against all of them, so the pool stays duplicate-free and
+// the bucket of the first key (bit sizes up to 24), are as long as the longest
+// digest of the pool and are checked against all of them, so the pool stays duplicate-free and
 // prefix-free.
 func extendKeys(keys []KeySpec, n int) []KeySpec {
 	maxLen := 0
@@ -195,10 +195,12 @@ func extendKeys(keys []KeySpec, n int) []KeySpec {
 		return true // equal, or one is a prefix of the other
 	}
 	for salt := 0; len(keys) < n && salt < 4096; salt++ {
+		// Same bucket for every bit size up to 24 (only byte 3 differs from
+		// the first key), as long as the longest digest of the pool.
 		d := append([]byte{}, keys[0].Digest[:4]...)
-		d = append(d, 0xee, byte(salt), byte(salt>>8), 0xee)
-		for len(d) < maxLen+1 {
-			d = append(d, 0xe0|byte(len(d)&0x0f))
+		d[3] ^= byte(1 + salt%255)
+		for len(d) < maxLen {
+			d = append(d, 0xe0|byte((len(d)+salt/255)&0x0f))
 		}
 		ok := true
 		for _, k := range keys {
